@@ -183,15 +183,15 @@ def c12(tier):
     cfgs = sets.HG_QUICK + (sets.HG_THOROUGH if tier == "thorough" else [])
     k = 9 if tier == "thorough" else 6
     total = 1 << k
-    cov, viols, inc = sets.run_engine("C12", tier, cfgs, total + 2, total + 2, extra_args=["--k9"] if k == 9 else [], crash_owners=("C12",), any_prop=True, min_chunk=1)
+    cov, viols, inc = sets.run_engine("C12", tier, cfgs, total + 3, total + 3, extra_args=["--k9"] if k == 9 else [], crash_owners=("C12",), any_prop=True, min_chunk=1)
     triples = 0
     cov["rule"] = ("complete enumeration: every subset of a %d-key domain (keys spaced by 2) x every hint position in [begin,end] x every value (below, each key, "
                    "each gap, above) x {insert(hint,const&), insert(hint,&&), emplace_hint}, per (comparator, underlying vector) configuration; judged against plain "
                    "insert on an identical copy and against std::set; distinct cell = (configuration, form, empty/non-empty, present/absent, hint relative to "
                    "lower_bound); evaluations counts monitored library calls" % k)
-    cov["exhaustive"] = not viols and not inc and cov["histories_completed"] == (total + 2) * len(cfgs)
-    cov["exhaustive_scope"] = "the enumeration over the %d-key domain; the two large-set sweeps (1500 and 5200 elements, every hint within +-72 positions of the lower bound around 5 anchors) are a sample" % k
-    cov["subsets_enumerated"] = cov["histories_completed"] - 2 * len(cfgs)
+    cov["exhaustive"] = not viols and not inc and cov["histories_completed"] == (total + 3) * len(cfgs)
+    cov["exhaustive_scope"] = "the enumeration over the %d-key domain; the two large-set sweeps (1500 and 5200 elements, every hint within +-72 positions of the lower bound around 5 anchors) are a sample; so is the sweep of the library's default comparator (std::less<T>) over integral keys at the extremes of their range (8 integral types x 64 subsets of 6 extreme values x 18 values x every hint x 3 forms)" % k
+    cov["subsets_enumerated"] = cov["histories_completed"] - 3 * len(cfgs)
     return core.finish("C12", tier, "exploration", cov, viols, inc, t0, ASSUME_SAN, min_evals=1000)
 
 
